@@ -199,9 +199,9 @@ func (t *TargetClient) mapDBAndCollectionName(db, collection string) (string, st
 			returnDB, returnCollection = util.GetCollectionNameFromFull(target)
 			return false
 		}
+		// a collection-level entry takes precedence over a whole-database entry, whatever the iteration order
 		if sourceDB == db && (sourceCollection == "*" || collection == "") {
 			returnDB, _ = util.GetCollectionNameFromFull(target)
-			return false
 		}
 		return true
 	})
